@@ -56,7 +56,7 @@ ssize_t io::queue::write(size_t len, const void *d, size_t part)
 		prepare(part);
 	}
 	while (done < len) {
-		if (!mpt_qpush(&_d, part, d)) {
+		if (mpt_qpush(&_d, part, d) < 0) {
 			return done;
 		}
 		++done;
